@@ -55,6 +55,7 @@ def gen_spec(rng, idx, thorough=False):
         n = rng.randint(2, 8) if rng.chance(0.85) else rng.randint(2, 3)
         r0 = rng.loguniform(0.02, 0.45) * L / 8.0 / max(1.0, n / 4.0)
         fam = rng.choice(["equal", "unequal", "zero", "onebig", "unequal"])
+        onebig_f = rng.choice([1e-3, 1e-3, 1e-8])
         radii = []
         for k in range(n):
             if fam == "equal":
@@ -64,7 +65,7 @@ def gen_spec(rng, idx, thorough=False):
             elif fam == "zero":
                 r = 0.0 if rng.chance(0.4) else r0 * rng.uniform(0.2, 1)
             else:
-                r = r0 if k == 0 else r0 * 1e-3 * rng.uniform(0.5, 2)
+                r = r0 if k == 0 else r0 * onebig_f * rng.uniform(0.5, 2)
             radii.append(r)
         if boundary in ("periodic", "shear") and rng.chance(0.65):
             cen = [(rng.choice([-1, 1]) * (L / 2 - rng.uniform(0, 1.5 * r0))) if rng.chance(0.6)
@@ -151,20 +152,39 @@ def gen_spec(rng, idx, thorough=False):
         parts.append(dict(id=hid, x=rng.uniform(-L / 2.2, L / 2.2), y=rng.uniform(-L / 2.2, L / 2.2), z=rng.uniform(-L / 2.2, L / 2.2),
                           vx=rng.normal(), vy=rng.normal(), vz=rng.normal(), m=rng.loguniform(1e-3, 1.0),
                           r=rng.choice([0.0, 1e-3 * L, 1e-2 * L])))
+    # exactly touching pair (dyadic coordinates: r2 == (r1+r2)^2 exactly) — decided by the model tie, not the oracle
+    exact_touch = rng.chance(0.12)
+    if exact_touch:
+        sft = L / 64.0
+        base = [rng.randint(-8, 8) * L / 32.0 for _ in range(3)]
+        for k in range(2):
+            hid += rng.randint(1, 50)
+            parts.append(dict(id=hid, x=base[0] + k * 2 * sft, y=base[1], z=base[2], vx=(-1.0 if k else 1.0) * rng.choice([0.0, 0.5, 1.0]),
+                              vy=0.0, vz=0.0, m=1.0, r=sft))
+    # non-square root-box layout: the base box becomes one root cell of a larger box (shift BEFORE wrapping, so that
+    # clusters generated at the faces of the base box straddle root-box faces)
+    nroot = [1, 1, 1]
+    if boundary != "shear" and rng.chance(0.25):
+        nroot = list(rng.choice([(2, 1, 1), (1, 2, 1), (2, 2, 1), (1, 2, 3), (3, 1, 2), (2, 2, 2)]))
+        for ai, a in enumerate("xyz"):
+            sh = -nroot[ai] * L / 2 + L / 2 + rng.randint(0, nroot[ai] - 1) * L
+            for p in parts:
+                p[a] += sh
+    E = {a: nroot[ai] * L for ai, a in enumerate("xyz")}
     if boundary in ("periodic", "shear"):
         for p in parts:
             for a in "xyz":
-                p[a] = ((p[a] + L / 2) % L) - L / 2
+                p[a] = ((p[a] + E[a] / 2) % E[a]) - E[a] / 2
     else:
         for p in parts:
             for a in "xyz":
-                p[a] = max(-0.49 * L, min(0.49 * L, p[a]))
+                p[a] = max(-0.49 * E[a], min(0.49 * E[a], p[a]))
     # the tree refuses two particles at identical coordinates: separate exact duplicates a little
     seenpos = set()
     for p in parts:
         while (p["x"], p["y"], p["z"]) in seenpos:
             p["x"] += 1e-9 * L * (1 + rng.uniform())
-            if p["x"] > 0.49 * L:
+            if p["x"] > 0.49 * E["x"]:
                 p["x"] -= 1e-3 * L
         seenpos.add((p["x"], p["y"], p["z"]))
     parts_unshuffled = list(parts)
@@ -179,7 +199,7 @@ def gen_spec(rng, idx, thorough=False):
                 ks=int(rng.chance(0.5)), n_active=(rng.randint(1, n) if rng.chance(0.3) else None),
                 seed=rng.randint(0, 2 ** 32 - 1), parts=parts, use_step=int(rng.chance(0.6)),
                 t0=rng.choice([0.0, 1.5, 7.25]), omega=(rng.choice([1.0, 0.37]) if boundary == "shear" else 0.0),
-                r_after_add=0)
+                r_after_add=0, nroot=nroot, exact_touch=int(exact_touch), tpt=int(rng.chance(0.3)))
     for k, p in enumerate(parts_unshuffled):
         if isinstance(p["vx"], tuple):
             prev = parts_unshuffled[k - 1]
@@ -227,7 +247,7 @@ def gen_spec(rng, idx, thorough=False):
                                       vx=0.0, vy=0.0, vz=0.0, m=1.0, r=rng.choice([0.0, 1e-3 * L])))
         for p in parts:
             for a in "xyz":
-                p[a] = max(-0.49 * L, min(0.49 * L, p[a]))
+                p[a] = max(-0.49 * E[a], min(0.49 * E[a], p[a]))
         rng.shuffle(parts)
         spec["n_active"] = None
         spec["parts"] = parts
@@ -242,10 +262,10 @@ def gen_spec(rng, idx, thorough=False):
             p["x"] -= p["vx"] * spec["dt"]; p["y"] -= p["vy"] * spec["dt"]; p["z"] -= p["vz"] * spec["dt"]
             if boundary == "periodic":
                 for a in "xyz":
-                    p[a] = ((p[a] + L / 2) % L) - L / 2
+                    p[a] = ((p[a] + E[a] / 2) % E[a]) - E[a] / 2
             else:
                 for a in "xyz":
-                    p[a] = max(-0.49 * L, min(0.49 * L, p[a]))
+                    p[a] = max(-0.49 * E[a], min(0.49 * E[a], p[a]))
     if rng.chance(0.3) and "res" not in spec:
         spec["mcv"] = rng.loguniform(1e-3, 1e2)        # minimum_collision_velocity (hard-sphere clamp)
     if collision == "direct" and integ == "none" and spec["gravity"] == "none" and rng.chance(0.12):
@@ -256,6 +276,15 @@ def gen_spec(rng, idx, thorough=False):
         spec["use_step"] = 0
     if spec["ks"] == 1 and (spec["gravity"] == "tree" or collision in ("tree", "linetree")):
         spec["res"] = ["script", spec["seed"] % 1000]     # rejected configuration: only the scripted resolver
+    if boundary == "none" and collision in ("direct", "line") and spec["gravity"] == "none" and spec["integrator"] in ("none", "leapfrog") and rng.chance(0.4):
+        # centre of mass far from the origin and moving
+        off = [rng.uniform(-1e3, 1e3) * L for _ in range(3)]
+        boost = [rng.normal() * 10.0 for _ in range(3)]
+        for p in parts:
+            for ai, a in enumerate("xyz"):
+                p[a] += off[ai]
+                p["v" + a] += boost[ai]
+        spec["com_offset"] = 1
     return spec
 
 
@@ -280,7 +309,14 @@ def make_sim(W, spec):
     sim.integrator = spec["integrator"]
     sim.collision = spec["collision"]
     if spec["box"]:
-        sim.configure_box(spec["box"])
+        nr = spec.get("nroot", [1, 1, 1])
+        sim.configure_box(spec["box"], nr[0], nr[1], nr[2])
+    if spec.get("tpt"):
+        sim.testparticle_type = 1
+    if "G" in spec:
+        sim.G = spec["G"]
+    if spec.get("teo"):
+        sim.track_energy_offset = 1
     sim.gravity = spec["gravity"]
     sim.boundary = spec["boundary"]
     sim.N_ghost_x, sim.N_ghost_y, sim.N_ghost_z = spec["nghost"]
@@ -302,7 +338,15 @@ def make_sim(W, spec):
     if "mcv" in spec:
         sim.minimum_collision_velocity = spec["mcv"]
     if spec.get("nvar"):
+        nreal = sim.N
         sim.add_variation()
+        # non-zero variational data, sitting on top of the real particles and with huge radii: they must not be searched
+        for i in range(nreal, sim.N):
+            src, dst = sim._particles[i - nreal], sim._particles[i]
+            dst.x, dst.y, dst.z = src.x, src.y + 1e-3, src.z
+            dst.vx, dst.vy, dst.vz = -src.vx, 0.5, -0.25
+            dst.m = 0.125
+            dst.r = 10.0 * spec["box"]
     return sim
 
 
@@ -567,7 +611,8 @@ def oracle_pairs(spec, state, tab, dtl, line):
         g = tab[(gi + 1) * 9 + (gj + 1) * 3 + (gk + 1)]
         if spec["boundary"] in ("periodic", "open"):
             # independent of reb_boundary_get_ghostbox: image offset = k * boxsize, no velocity offset
-            g = (gi * spec["box"], gj * spec["box"], gk * spec["box"], 0.0, 0.0, 0.0)
+            nr = spec.get("nroot", [1, 1, 1])
+            g = (gi * spec["box"] * nr[0], gj * spec["box"] * nr[1], gk * spec["box"] * nr[2], 0.0, 0.0, 0.0)
         elif spec["boundary"] == "none":
             g = (0.0,) * 6
         for i in range(n):
@@ -1048,6 +1093,8 @@ def check_hs(c, spec, B, res, stats):
 # ----------------------------------------------------------------------------- histories
 def gen_history_spec(rng, idx):
     spec = gen_spec(rng, idx)
+    while spec.get("nroot", [1, 1, 1]) != [1, 1, 1] or spec.get("com_offset") or spec["integrator"] != "none":
+        spec = gen_spec(rng, idx)
     spec["integrator"] = "leapfrog"
     spec["gravity"] = "none"
     spec["boundary"] = rng.choice(["none", "periodic"])
